@@ -78,7 +78,7 @@ def run_case(case):
     cbin = rng.random() < 0.35
     ns = int(rng.integers(40, 1500))
     if kind == "nidq":
-        rec = G.make_nidq(rng, mn=int(rng.integers(0, 5)), ma=int(rng.integers(0, 3)), xa=int(rng.integers(1, 4)), dw=1,
+        rec = G.make_nidq(rng, mn=int(rng.integers(0, 5)), ma=int(rng.integers(0, 3)), xa=int(rng.integers(1, 4)), dw=1, acq="random",
                           mn_gain=float(rng.choice([1, 200, 500])), ma_gain=float(rng.choice([1, 2, 10])), aimax=float(rng.choice([5, 10, 2.5])), ns=ns)
         order = np.arange(rec.nc)
         mode, enc, n = "-", "-", rec.nc
